@@ -49,7 +49,7 @@ CHECKS = {
         'engine': 'E-enum',
         'technique': 'bounded-exhaustive enumeration of ledgers x BALANCES/JOURNAL/PRINT statement forms against the SELECT expansions written from the property, direct beancount folds, and a print/reload round trip',
         'design_ref': 'DESIGN.md section 4, C14',
-        'text': 'All 79 ledgers with <= 2 posting-producing snippets (+ 3 feature-rich ledgers) x 348 BALANCES and 783 JOURNAL statements (summary function none/units/cost x 29 FROM forms incl. 15 '
+        'text': 'All 79 ledgers with <= 2 posting-producing snippets (+ 4 extra ledgers: feature-rich, long text, zero-cost lots) x 348 BALANCES and 783 JOURNAL statements (summary function none/units/cost x 29 FROM forms incl. 15 '
                 'OPEN/CLOSE/CLEAR subsets x WHERE conditions / 9 account patterns incl. quotes, case variation, no match): rows and datatypes equal the SELECT expansion, the account order equals '
                 'beancount account-type order, sums and running balances equal direct Inventory folds; all 379 ledgers with <= 2 of 27 snippets x 57 PRINT FROM forms over every directive type: the emitted '
                 'text equals beancount\'s printer on the entries selected by an independent predicate, and reloading it yields equal directives (thorough: n <= 4 / n <= 3, 3.3M statements).',
@@ -59,9 +59,9 @@ CHECKS = {
         'engine': 'E-sched',
         'technique': 'stateless model checking of real threads under a controlled baton scheduler: all interleavings of row/sub-expression yield points for pairs, preemption-bounded for triples, line granularity in thorough',
         'design_ref': 'DESIGN.md section 4, C20',
-        'text': '10 statements (balance twice per row, aggregates, IN- and FROM-subqueries, shared parsed statements with named/positional parameters, #entries, OPEN/CLOSE, harness table) x 3 '
+        'text': '17 statements (balance twice per row, multi-argument function calls with a scheduling point between their arguments, statements given as text, scheduling points inside parsing and compilation, aggregates, IN- and FROM-subqueries, shared parsed statements with named/positional parameters, #entries, OPEN/CLOSE, harness table) x 3 '
                 'configurations (one shared connection, separate connections over the same entries, different ledgers): ALL interleavings of the yield points (a harness BQL function between '
-                'sub-expressions and in WHERE, a harness table iterator) for all 55 pairs, <= 2 preemptions for 63 (quick) / all 220 (thorough) triples; thorough adds sys.settrace line granularity '
+                'sub-expressions, between the arguments of one call and in WHERE, a harness table iterator, parser and compiler actions) for all 55 pairs of the 10 core statements, the text-statement pairs and 28 FROM-qualified / BALANCES / JOURNAL / same-overload pairs; <= 2 preemptions for 28 (quick) / all 220 (thorough) triples; thorough adds sys.settrace line granularity '
                 '(1 preemption for all pairs, 2 for the pairs touching shared state). Oracle: every thread obtains exactly its serial rows and description; no deadlock; failing schedules replay identically.',
         'note': 'Trusted: CPython threading primitives used by the baton. Preemption inside one source line and CPython-internal races are not modelled; a racy canary table proves the explorer is not vacuous on every run.',
     },
@@ -72,7 +72,7 @@ CHECKS = {
         'text': 'Every overload of every operator, function and aggregate in the live registries x every concrete instantiation of `Any` slots (13 column types incl. Amount, Position, Inventory, interval, '
                 'set, list, dict, object) and bool for int slots, on tables holding the full product of the column alphabets; depth 2: every column slot of every such program replaced by every depth-1 '
                 'producer whose ANNOUNCED datatype is the slot type (35k programs); every attribute path of every structured type, dict subscripts, implicit casts of object operands, FROM/IN subquery '
-                'columns; `*` and all columns of every table over the ledger family (n <= 1 quick, <= 2 thorough). Invariants: every cell is NULL or an instance of the announced datatype, no '
+                'columns; `*` and all columns of every table over the ledger family (n <= 1 quick, <= 2 thorough), for the postings table also under 5 OPEN / CLOSE / CLEAR qualifiers (synthesised rows). Invariants: every cell is NULL or an instance of the announced datatype, no '
                 'non-data exception escapes execute, render_text / render_csv / numberify accept the result.',
         'note': 'Trusted: beancount data model. Data errors (ValueError, ArithmeticError, re.error, KeyError, IndexError) are not type errors: failing rows are isolated and dropped. Open known findings: '
                 'min/max over unorderable values, truth value of Inventory. Membership of amount-like values in collections of foreign element types is outside (beancount equality raises).',
@@ -81,8 +81,8 @@ CHECKS = {
         'engine': 'E-enum',
         'technique': 'bounded-exhaustive enumeration of all transaction sequences of <= n templates x selections x functions against beancount Inventory folds computed by direct traversal',
         'design_ref': 'DESIGN.md section 4, C12',
-        'text': 'ALL ledgers of <= 3 (quick: 525 bookable) / <= 4 (thorough: 3,891) transactions over 8 templates (two currencies, lots at cost with dates, partial sales, conversions, expenses) with '
-                'terminating exchange rates x WHERE/FROM selections x groupings x {units, cost, value, value@date, convert USD/EUR with/without date}: sum() equals the beancount Inventory fold, f(sum(x)) '
+        'text': 'ALL ledgers of <= 3 (quick: 713 bookable) / <= 4 (thorough: 5,864) transactions over 9 templates (two currencies, lots at cost with dates, a lot at zero cost, partial sales, conversions, expenses) with '
+                'terminating exchange rates x WHERE/FROM selections x groupings x {units, cost, value, value@date, convert USD/EUR with/without date, convert with lower-/mixed-case currency}: sum() equals the beancount Inventory fold, f(sum(x)) '
                 '== sum(f(x)), partition sums add up to the total, and the running balance equals the prefix sum however many times (0-3) and wherever the targets reference it, with an intervening '
                 'nested scan consulting balance, and with balance in WHERE.',
         'note': 'Trusted: beancount Inventory/convert/prices. Balance-in-WHERE cases only where the balance term is evaluated on every scanned row.',
@@ -93,7 +93,7 @@ CHECKS = {
         'design_ref': 'DESIGN.md section 4, C13',
         'text': '20 (quick) / 300 (thorough) ledgers of the C12 family, most feature-rich first, x every pair of dates d <= e out of {before the span, each entry date, each entry date + 1, after the span} '
                 'x all 12 clause shapes (CLOSE with and without date) x FROM filters x SELECT / BALANCES / JOURNAL / PRINT, plus d > e: originals inside [d, e) returned unchanged and in order, '
-                'balance-sheet totals equal balances as of e in the full ledger, income statement carries only activity since d and clears to zero, every returned transaction balances, filter '
+                'balance-sheet totals equal balances as of e in the full ledger, income statement carries only activity since d and clears to zero, every returned transaction balances (also on the returned weight column, which equals get_weight of beancount for every returned row), filter '
                 'independence of the clause order, d > e rejected at compile time.',
         'note': 'Trusted: beancount data model and interpolate; the oracle never calls beancount.ops.summarize. beanquery.parser.parse is memoised by text inside the check (BALANCES/JOURNAL re-parse a template on every compile).',
     },
@@ -104,8 +104,8 @@ CHECKS = {
         'text': '(1) 21 statement templates (placeholders in targets, WHERE, ORDER BY expressions, function arguments, FROM- and IN-subqueries, non-commutative contexts, repeated names, list values) x ALL '
                 'assignments from per-slot literal alphabets: the parsed named and positional statements are re-executed for every assignment and must equal the statement with the values written as '
                 'literals (textual order for positional) and the reference interpreter. (2) Every depth<=2 expression of the C01 enumerator x ALL non-NULL constant assignments: folded value and announced '
-                'datatype equal per-row evaluation from a one-row table and the reference. (3) ALL 14^d histories (d <= 3 quick, <= 4 thorough) of executions on one connection (shared parsed statements with '
-                'other parameters, executemany, aggregate, PIVOT, IN/FROM subqueries, balance twice, OPEN/CLOSE, failing statement, second cursor): every step equals the fresh-connection outcome and the source '
+                'datatype equal per-row evaluation from a one-row table and the reference. (3) ALL 22^d histories (d <= 3 quick, <= 4 thorough) of executions on one connection (shared parsed statements with '
+                'other parameters, executemany, aggregate, PIVOT, IN/FROM subqueries, balance twice, OPEN/CLOSE, failing statement, second cursor, regex functions sharing a pattern, PRINT, #entries, a shell session running a named query, the same text through the API, sum/first/last over a user table of persistent Inventory objects): every step equals the fresh-connection outcome and the source '
                 'data is unchanged.',
         'note': 'Trusted: vt/ref/select.py, vt/ref/expr.py. Histories are not merged by state (no abstraction argument needed); pristine statements per history are deep copies of freshly parsed ASTs.',
     },
@@ -125,7 +125,7 @@ CHECKS = {
         'design_ref': 'DESIGN.md section 4, C17',
         'text': 'Every Amount/Position/Inventory column of <= 3 (quick) / <= 4 (thorough) cells over {NULL, 1-2 of 3 currencies, zero amounts, multi-lot and empty inventories} in three layouts with plain columns, '
                 'and all two- (thorough: three-) column combinations of <= 2 rows, with and without a display formatter: other columns/rows/order untouched, one `name (CUR)` decimal column per currency in '
-                'non-increasing frequency, each cell = sum of units over lots (quantised with a formatter) or NULL/0 when absent, no non-zero currency dropped.',
+                'non-increasing frequency, each cell = sum of units over lots (quantised with a formatter) or NULL/0 when absent, no non-zero currency dropped; run_query(numberify=True) equals numberify_results of the API result on the sample ledger.',
         'note': 'Trusted: beancount Inventory/Amount. Tie order among equally frequent currencies is free; frequency read as rows or lots.',
     },
     'C08': {
@@ -153,7 +153,7 @@ CHECKS = {
         'technique': 'exhaustive enumeration of argument domains (every date 1900-2100, bounded strings/decimals/accounts/cast inputs) evaluated through real queries against stdlib-calendar reference laws',
         'design_ref': 'DESIGN.md section 4, C18',
         'text': 'All 73,414 dates 1900-2100 x 7 truncation units and 13 part fields and day-stride date_bin; month/year-stride date_bin within +-5 (quick) / +-30 years of 3 origins; date_add/date_diff/'
-                'date+-int with n in -400..400 on month/leap boundaries; interval arithmetic with day clipping; all account names of 1..5 components over 5 roots; all strings of length <= 3 over 4 '
+                'date+-int with n in -400..400 on month/leap boundaries; interval arithmetic with day clipping; all account names of 1..5 components over 5 roots (columns, literals, nested calls; a == parent(a) + ":" + leaf(a), parent of a one-component name NULL or empty); all strings of length <= 3 over 4 '
                 'letters x all index/width arguments in -4..4; decimals m*10^e; casts x inputs of every type (NaN, Infinity, invalid dates); every cell compared with vt/ref/dates.py and slice/regex/decimal definitions.',
         'note': 'Trusted: stdlib calendar/datetime/decimal/re; vt/ref/dates.py (self-tested against other stdlib code on every run). Zero/negative strides, out-of-range indexes, maxwidth < 5, today() are outside.',
     },
